@@ -8,6 +8,7 @@ arithmetic and permutation matrix are regenerated from /repo (Gen/C09).
 import CfVerif.Proofs.C09Match
 import CfVerif.Proofs.C09Link
 import CfVerif.Proofs.C09Layout
+import CfVerif.Proofs.C09Exact
 namespace CfVerif.C09
 open CfVerif
 
@@ -286,6 +287,57 @@ theorem estimate_outcome (ops : PoseOps P) (pick : Nat → Nat → List Nat → 
         have := unlinked_rejected ops pick hp _ [(ref, p)] this
         simp only [estimate, findReference, this]
 
+/-- **Linking and averaging are exact on consistent data.**  Let the per-sample poses be error free: sample `i`
+holds, for each of its stations `k`, the true pose `B k` expressed in the frame of the true Crazyflie pose `X i`
+(`rel (X i) (B k)`), the global frame being the frame of the first sample (`rel (X 0) u = u`).  Then, for ANY pose
+arithmetic satisfying the three laws of `PoseLaws` (rigid-transform algebra; averaging equal poses returns that
+pose) and any choices of `list(known)[0]`, whatever `estimate` returns is the truth: every base-station pose is
+`B k` and the CF pose of sample `i` is `X i` — chaining through intermediate stations, the choice of the known
+station and the bucket averaging introduce no error of their own.  (That IPPE + mirror selection deliver such
+consistent per-sample poses is numerics, outside the model.) -/
+theorem estimate_exact_on_consistent_data (ops : PoseOps P) (rel : P → P → P) (laws : PoseLaws ops rel)
+    (pick : Nat → Nat → List Nat → Nat) (B X : Nat → P) (refCfs : List (Dict P))
+    (hn : ∀ s ∈ refCfs, s.keys.Nodup)
+    (hdata : ∀ i s, refCfs[i]? = some s → ∀ k p, s.get? k = some p → p = rel (X i) (B k))
+    (hframe : ∀ u, rel (X 0) u = u) (hfirst : refCfs.head? ≠ some [])
+    (bs : Dict P) (cfs : List P) (h : estimate ops pick refCfs = .ok (bs, cfs)) :
+    (∀ k p, bs.get? k = some p → p = B k) ∧ (∀ i c, cfs[i]? = some c → c = X i) := by
+  cases refCfs with
+  | nil => simp [estimate, findReference] at h
+  | cons s tail =>
+    cases s with
+    | nil => exact absurd rfl hfirst
+    | cons kv rest =>
+      obtain ⟨ref, p⟩ := kv
+      simp only [estimate, findReference] at h
+      cases hr : estimateRemaining ops pick (((ref, p) :: rest) :: tail) [(ref, p)] with
+      | error e => rw [hr] at h; cases h
+      | ok bsPoses =>
+        rw [hr] at h
+        simp only [] at h
+        cases hc : estimateCfPoses ops bsPoses (((ref, p) :: rest) :: tail) with
+        | error e => rw [hc] at h; cases h
+        | ok cfPoses =>
+          rw [hc] at h
+          simp only [Except.ok.injEq, Prod.mk.injEq] at h
+          obtain ⟨rfl, rfl⟩ := h
+          have hp : p = B ref := by
+            have := hdata 0 ((ref, p) :: rest) rfl ref p (by simp [Dict.get?])
+            rw [hframe] at this; exact this
+          have hgs : ∀ j s', (((ref, p) :: rest) :: tail)[j]? = some s' → GoodSample rel B (X j) s' :=
+            fun j s' hj => hdata j s' hj
+          have hgd0 : GoodDict B [(ref, p)] := by
+            intro k q hk
+            simp only [Dict.get?] at hk
+            split at hk
+            · rename_i e; subst e; simp only [Option.some.injEq] at hk; rw [← hk]; exact hp
+            · cases hk
+          have hgd : GoodDict B bsPoses :=
+            linkLoop_good ops rel laws B pick X _ hgs _ _ _ _ _ _ _ hgd0 hr
+          refine ⟨hgd, ?_⟩
+          have := estimateCfPoses_good ops rel laws B X bsPoses hgd _ 0 hn (by simpa using hgs) cfPoses hc
+          simpa using this
+
 end T2
 
 /-! ## T4 — parameter layout of the geometry solver and Jacobian sparsity -/
@@ -474,6 +526,13 @@ example : ∀ b ∈ allBs ([[(7, ()), (1, ())], [(1, ()), (5, ())], [(5, ()), (0
   rcases this with rfl | rfl | rfl | rfl <;> assumption
 example : estimate (P := Nat) ⟨fun a _ c => a + c, fun a _ => a, fun l => l.length⟩ (fun _ _ l => l.headD 0)
     [[(7, 1), (1, 2)], [(5, 3), (0, 4)]] = .error .cannotLink := by rfl
+/-- the laws of `estimate_exact_on_consistent_data` are satisfiable: 1-D poses (translations) -/
+example : PoseLaws (P := Int) ⟨fun g c u => g - c + u, fun g c => g - c, fun l => l.headD 0⟩ (fun x u => u - x) :=
+  ⟨by intro g x u; show g - (g - x) + (u - x) = u; omega, by intro g x; show g - (g - x) = x; omega, by
+    intro p l hl h
+    cases l with
+    | nil => exact absurd rfl hl
+    | cons a r => simpa using h a (by simp)⟩
 example : PickValid (fun l => l.headD 0) := by
   intro l hl; cases l with
   | nil => exact absurd rfl hl
